@@ -145,8 +145,9 @@ impl<const C: usize> RibM<C> {
         }
         let cv = self.canonical_value(&w2);
         if cv.to_bits() != v.to_bits() {
-            // a difference of a few ulps is rounding (e.g. a running sum), not a dependence on other samples
-            if (cv as f64 - v as f64).abs() <= 4.0 * ulp32(v.abs().max(cv.abs())) as f64 {
+            // a difference within the summation tolerance is rounding (another summation order, a running sum), not a
+            // dependence on other samples
+            if (cv as f64 - v as f64).abs() <= tau {
                 out.count("values_differing_from_a_fresh_controller_by_rounding_only");
             } else {
                 let earlier = self.m.presses > 1 || self.m.prev_run_len > 0;
@@ -399,6 +400,7 @@ macro_rules! with_capacity {
             8000 => $f::<{ sample_rate_to_capacity(8000) }>($($args),*),
             3500 => $f::<{ sample_rate_to_capacity(3500) }>($($args),*),
             22050 => $f::<{ sample_rate_to_capacity(22050) }>($($args),*),
+            96000 => $f::<{ sample_rate_to_capacity(96000) }>($($args),*),
             48000 => $f::<{ sample_rate_to_capacity(48000) }>($($args),*),
             192000 => $f::<{ sample_rate_to_capacity(192000) }>($($args),*),
             _ => panic!("unsupported ribbon sample rate {}", $fs),
@@ -660,6 +662,80 @@ fn rate_counts_sweep(ctx: &Ctx, rep: &mut Report, prop: &'static str) {
     rep.evaluations += 192_000 - 100 + 1;
 }
 
+/// E2 for the largest capacities: linear scripts through the press-detection model (no forks): an idle prefix of
+/// k out-of-range polls, a tap one sample short of a press, a press that is exactly long enough, a re-touch after a
+/// gap of g out-of-range samples, with both edges polled at every step of the interesting stretches
+fn scripted_presses_c<const C: usize>(ctx: &Ctx, rep: &mut Report, cfg: RibCfg, props: &[&'static str]) {
+    let probe = match RibM::<C>::new(cfg, vec![], false, false, u32::MAX) {
+        Ok(m) => m,
+        Err(_) => return,
+    };
+    let l = probe.m.l;
+    let b = cfg.boundary();
+    let mut jobs: Vec<(usize, usize, usize)> = Vec::new(); // idle prefix, gap, extra
+    for k in [0usize, 1, 2, 3, 5, 7, 64, 1023, 1024, 1025] {
+        for g in [1usize, 2, 3, 17] {
+            jobs.push((k, g, 0));
+        }
+    }
+    let jr = &jobs;
+    let pv: Vec<&'static str> = props.to_vec();
+    let pr = &pv;
+    par_ranges(ctx, rep, jobs.len() as u64, jobs.len() as u64, |_, lo, hi, lc| {
+        for j in lo..hi {
+            let (k, g, _) = jr[j as usize];
+            let mut m = match RibM::<C>::new(cfg, vec![], false, false, u32::MAX) {
+                Ok(m) => m,
+                Err(_) => return,
+            };
+            let x = 0.37 * b;
+            let mut ops: Vec<(ROp, usize)> = vec![(ROp::Poll(1.0), k), (ROp::Poll(x), l - 1), (ROp::Poll(1.0), 1), (ROp::Poll(x), l + 2), (ROp::JustPressed, 1), (ROp::Poll(1.0), g), (ROp::JustReleased, 1), (ROp::Poll(x), l + 1), (ROp::JustPressed, 1), (ROp::Poll(1.0), 1), (ROp::Poll(x), 3)];
+            ops.retain(|(_, n)| *n > 0);
+            let mut done: Vec<String> = Vec::new();
+            'script: for (op, n) in ops {
+                for i in 0..n {
+                    let mut out = StepOut::new();
+                    let r = std::panic::catch_unwind(std::panic::AssertUnwindSafe(|| m.apply(&op, &mut out)));
+                    // poll the edges around the moments a press may be reported
+                    let near = n - i <= 4 || i < 2;
+                    let script = |done: &Vec<String>| { let mut s = done.clone(); s.push(format!("{}*{}", RibM::<C>::op_str(&op), i + 1)); s };
+                    if let Err(e) = r {
+                        for p in pr.iter() {
+                            lc.violation(Violation { prop: p, class: "panic".into(), detail: format!("the real code panicked: {}", panic_msg(&e)), machine: "ribbon", config: m.config(), ops: script(&done) });
+                        }
+                        break 'script;
+                    }
+                    let mut flags = out.flags;
+                    if near && matches!(op, ROp::Poll(_)) {
+                        for e in [ROp::JustPressed, ROp::JustReleased] {
+                            let mut o2 = StepOut::new();
+                            m.apply(&e, &mut o2);
+                            flags.extend(o2.flags);
+                        }
+                    }
+                    let mut stop = false;
+                    for f in flags {
+                        if pr.contains(&f.prop) {
+                            lc.violation(Violation { prop: f.prop, class: f.class, detail: f.detail, machine: "ribbon", config: m.config(), ops: script(&done) });
+                            stop = true;
+                        }
+                    }
+                    if stop {
+                        break 'script;
+                    }
+                }
+                done.push(format!("{}*{}", RibM::<C>::op_str(&op), n));
+            }
+            lc.count("scripted_press_sequences", 1);
+        }
+    });
+    rep.evaluations += jobs.len() as u64;
+    rep.transitions += jobs.len() as u64 * (4 * l as u64);
+    rep.states += jobs.len() as u64 * (4 * l as u64);
+    rep.traces += jobs.len() as u64;
+    rep.subruns.push(json!({"engine": "E2-sweep", "what": "linear press / tap / re-touch scripts with idle prefixes and gaps", "fs": cfg.fs, "capacity": C, "press_needs": l, "scripts": jobs.len()}));
+}
+
 pub fn sr_cross<const C: usize>(ctx: &Ctx, rep: &mut Report, cfg: RibCfg, levels: Vec<f32>, props: &[&'static str]) {
     crate::sr::cross_check(ctx, rep, || RibM::<C>::new(cfg, levels.clone(), false, false, 2).expect("calibration"), &format!("ribbon press machine at {} Hz", cfg.fs), props);
 }
@@ -694,6 +770,10 @@ pub fn c15(ctx: &Ctx) -> Report {
             with_capacity!(fs, long_press_c, ctx, &mut rep, cfg, false, p);
         }
         rate_counts_sweep(ctx, &mut rep, "C15");
+        for fs in if thorough { vec![10000u32, 22050, 48000, 96000, 192000] } else { vec![10000u32, 48000, 96000, 192000] } {
+            let cfg = RibCfg { fs, softpot: 20e3, dropper: 820.0, pullup: 1e6 };
+            with_capacity!(fs, scripted_presses_c, ctx, &mut rep, cfg, p);
+        }
     }
     // complement without state matching at the two smallest capacities
     {
@@ -715,6 +795,7 @@ pub fn c15(ctx: &Ctx) -> Report {
     rep.require_nonzero("presses_following_a_tap_shorter_than_the_capture_time");
     rep.require_nonzero("edge_polls_expected_true");
     rep.require_nonzero("releases_expected");
+    rep.require_nonzero("scripted_press_sequences");
     rep.assumptions.push("sample rates are the six instantiated capacities (2, 6, 9, 18, 35, 171); a const-generic capacity cannot be enumerated at run time".into());
     rep
 }
